@@ -279,4 +279,93 @@ theorem run_invariant (P : St → Prop) (Q : St → Op → Prop)
       rw [hs1] at hok
       exact ih s1 s' (hstep s s1 o h hok.1 hs1) hok.2 hr
 
+/-! ### the recovery branch of `_send_data`: a priority tree that schedules a stream it does not know
+
+`priority` 2.0.0 can keep a *removed* stream scheduled after a dependency loop has been reprioritized: `next(self.priority)`
+then returns an id that is not a member of the tree (the library assumption above fails).  `_send_data(i)` for such an id
+finds no buffer (`KeyError`, or h2 raises for the closed stream first), its `except` clause finds no buffer to close and
+`remove_stream(i)` raises `MissingStreamError`; the handler of *that* starts again with a fresh `PriorityTree` holding
+exactly the buffered streams.  Whether these are left blocked is read off the loop body (`Atomic.h2RebuildBlocks`,
+`Atomic.h2SendDataRebuild`): `insert_stream` inserts a stream active.  The whole branch runs without a suspension point,
+so it is one step.  It is kept apart from `Op` (an `XOp`): the library misbehaving is not an op of the send path proper,
+and the model lets it happen for *any* non-member at *any* time the task is at the top of its loop. -/
+
+/-- what the fresh tree does to one stream: member iff it has a buffer -/
+def rebuildStr (x : Str) : Str := { x with inTree := x.hasBuf, blocked := x.hasBuf && Atomic.h2RebuildBlocks }
+
+/-- `next(priority) = i` for a non-member `i`: `_send_data(i)` → `except` → `MissingStreamError` → fresh tree -/
+def rebuild (s : St) (i : Nat) : Option St :=
+  if s.task != .running || s.closed || (s.str i).inTree || (s.str i).hasBuf then none
+  else some { s with str := fun j => rebuildStr (s.str j) }
+
+/-- ops of the send path plus the library's misbehaviour -/
+inductive XOp where
+  | op (o : Op)
+  | rebuild (i : Nat)
+deriving Repr, DecidableEq
+
+def xstep (s : St) : XOp → Option St
+  | .op o => step s o
+  | .rebuild i => rebuild s i
+
+/-- the hypothesis on runs (`park` only at deadlock); nothing is assumed about when the library misbehaves -/
+def xopOk (s : St) : XOp → Prop
+  | .op o => opOk s o
+  | .rebuild _ => True
+
+def XOp.isTask : XOp → Bool
+  | .op o => o.isTask
+  | .rebuild _ => true
+
+def xrunOk : St → List XOp → Option St
+  | s, [] => some s
+  | s, o :: os => match xstep s o with
+    | none => none
+    | some s' => xrunOk s' os
+
+def xallQ (Q : St → XOp → Prop) : St → List XOp → Prop
+  | _, [] => True
+  | s, o :: os => Q s o ∧ match xstep s o with | none => True | some s' => xallQ Q s' os
+
+theorem xrun_invariant (P : St → Prop) (Q : St → XOp → Prop)
+    (hstep : ∀ s s' o, P s → Q s o → xstep s o = some s' → P s') (ops : List XOp) :
+    ∀ (s s' : St), P s → xallQ Q s ops → xrunOk s ops = some s' → P s' := by
+  induction ops with
+  | nil => intro s s' h _ hr; simp [xrunOk] at hr; subst hr; exact h
+  | cons o os ih =>
+    intro s s' h hok hr
+    simp only [xrunOk] at hr
+    simp only [xallQ] at hok
+    split at hr
+    · cases hr
+    · rename_i s1 hs1
+      rw [hs1] at hok
+      exact ih s1 s' (hstep s s1 o h hok.1 hs1) hok.2 hr
+
+/-- a run of the send path proper is a run of the extended machine -/
+theorem xrunOk_lift (ops : List Op) : ∀ s, xrunOk s (ops.map .op) = runOk s ops := by
+  induction ops with
+  | nil => intro s; rfl
+  | cons o os ih =>
+    intro s
+    simp only [List.map_cons, xrunOk, runOk, xstep]
+    cases step s o with
+    | none => rfl
+    | some s1 => exact ih s1
+
+theorem xallQ_lift (Q : St → Op → Prop) (Q' : St → XOp → Prop) (hQ : ∀ s o, Q s o → Q' s (.op o)) (ops : List Op) :
+    ∀ s, allQ Q s ops → xallQ Q' s (ops.map .op) := by
+  induction ops with
+  | nil => intro s _; trivial
+  | cons o os ih =>
+    intro s h
+    simp only [allQ] at h
+    simp only [List.map_cons, xallQ, xstep]
+    refine ⟨hQ s o h.1, ?_⟩
+    cases hs : step s o with
+    | none => trivial
+    | some s1 =>
+      rw [hs] at h
+      exact ih s1 h.2
+
 end HC.Proto.H2Send
